@@ -18,7 +18,7 @@ Qed.
 
 Inductive buf_change (st : cstate) (l : label) (st' : cstate) : Prop :=
 | BcSame : s_buf st' = s_buf st -> buf_change st l st'
-| BcSend a it : l = LOp a OWait \/ l = LClient a -> s_buf st' = s_buf st ++ [it] -> buf_change st l st'
+| BcSend a it : l = LClient a -> s_buf st' = s_buf st ++ [it] -> buf_change st l st'
 | BcTake h it : l = LProc h -> s_pc st = PIdle -> h_arm h = Some ArmItem -> s_buf st = it :: s_buf st' -> buf_change st l st'
 | BcDrain h : l = LProc h -> s_pc st = PIdle -> (h_arm h = Some ArmClear \/ h_arm h = Some ArmStop) -> s_buf st' = [] -> buf_change st l st'.
 
@@ -27,10 +27,9 @@ Theorem buffer_is_fifo c st l st' o : cstep c st l = StepOk st' o -> buf_change 
 Proof.
   intros H. destruct l as [a op|a|h|h|dt|].
   - destruct op; crush_step H; open_shapes; unemit_all;
-      first [ apply BcSame; first [reflexivity|apply (proj1 (ring_push_buf _ _ _))]
-            | eapply BcSend; [left; reflexivity|reflexivity] ].
+      apply BcSame; first [reflexivity|apply (proj1 (ring_push_buf _ _ _))].
   - cbn [cstep] in H. unfold continue_client in H. destruct (client_of st a) eqn:CA; crush_step H; open_shapes; unemit_all;
-      first [ apply BcSame; reflexivity | eapply BcSend; [right; reflexivity|reflexivity] ].
+      first [ apply BcSame; reflexivity | eapply BcSend; [reflexivity|reflexivity] ].
   - cbn [cstep] in H. unfold proc_step in H. destruct (s_pc st) eqn:PC; try discriminate.
     + destruct (h_arm h) as [[| | |]|] eqn:HA; try discriminate.
       * destruct (s_buf st) as [|it r] eqn:B; [discriminate|].
